@@ -70,6 +70,10 @@ HANDLERS['C06'] = HANDLERS['C06'] + [HANDLERS['C02'][2], HANDLERS['C02'][0]]   #
 CENSUS.setdefault('C06', []).append('~+Peers::add_block')
 HANDLERS['C12'] = HANDLERS['C12'] + [HANDLERS['C01'][0]]
 CENSUS['C12'].append(HANDLERS['C01'][0])
+# a last state is trusted with the total difficulty its chain root commits: the checks that tie the chain root to the header
+# (seeded C12-4: the epoch test of check_verifiable_header disagreed with patched_is_valid at the activation boundary)
+CENSUS['C12'].extend(['LightClientProtocol::check_verifiable_header', '<VerifiableHeader as VerifiableHeaderPatch>::patched_is_valid',
+                      '<VerifiableHeader as VerifiableHeaderPatch>::checked_total_difficulty'])
 HANDLERS['C16'] = [HANDLERS['C02'][0], HANDLERS['C02'][1], '!LightClientProtocol::fetch_headers_txs@^Peers::(fetching_idle_txs|fetching_idle_headers|update_blocks_proof_request|update_txs_proof_request)$']
 CENSUS['C16'].extend(HANDLERS['C16'])
 CENSUS['C16'].extend(['strict_merkle_proof_root', '~TransactionsProofRequest::check_tx_hashes', '~BlocksProofRequest::check_block_hashes'])
